@@ -436,12 +436,17 @@ theorem ow_execC (o : COp) : KeepsO (execC o) := by
     split
     · exact hoare_conseq (hoare_of_keeps (keeps_of_frameO (fo_emit _) OwnOkP)) (fun _ h => h.1) (fun _ _ h => h) (fun _ h => h)
     · rename_i hnone
-      intro s ⟨hs, he⟩
-      subst he
-      refine hoare_new o k hn s0 ⟨hs, ?_⟩
-      cases hl : alookup s0.srcs k with
-      | none => rfl
-      | some v => simp [hl] at hnone
+      apply hoare_bind (fun _ s => OwnOk s ∧ alookup s.srcs k = none)
+      · apply hoare_modify
+        intro s ⟨hs, he⟩
+        subst he
+        refine ⟨hs, ?_⟩
+        show alookup s0.srcs k = none
+        cases hl : alookup s0.srcs k with
+        | none => rfl
+        | some v => simp [hl] at hnone
+      · intro _
+        exact hoare_new o k hn
 macro_rules | `(tactic| ow_lemma) => `(tactic| with_reducible exact ow_execC _)
 
 theorem ow_runCb (k : Nat) (p : Payload) : KeepsO (runCb k p) := by unfold runCb; ow
